@@ -124,7 +124,7 @@ CONF_SWARM = [
     {'is_color': False}, {'strategy': 'O1'}, {'strategy': 'On'}, {'is_random': False},
     {'vt': 'exc'}, {'vt': 'warn'}, {'vdoor': 'warn'}, {'vparam': 'valueerror'}, {'vreturn': 'warn'},
     {'verbosity': 'MINIMAL'}, {'verbosity': 'MAXIMAL'}, {'is_color': False, 'vt': 'warn'},
-    {'is_random': False, 'vt': 'exc'}, {'strategy': 'On', 'vt': 'warn'},
+    {'is_random': False, 'vt': 'exc'}, {'strategy': 'On', 'vt': 'warn'}, {'is_color': True}, {'is_color': True, 'vt': 'warn'},
 ]
 
 
